@@ -274,7 +274,7 @@ func cliEnabled() bool { return os.Getenv("VERIF_DESYNC_BIN") != "" }
 // runChild starts the CLI in its own process group and waits for its exit. When the trigger
 // fires first (st.reached, or openPath seen among the child's descriptors) sig is sent to the
 // child process, then everything held by the server is released and the child is left alone.
-func runChild(work string, args []string, st *cliState, sig syscall.Signal, openPath string) (res childResult) {
+func runChild(work string, args []string, st *cliState, sig syscall.Signal, openPath string, ff *fifoFeed) (res childResult) {
 	runtime.LockOSThread() // Pdeathsig is bound to the starting thread
 	defer runtime.UnlockOSThread()
 	cmd := exec.Command(cliBin(), args...)
@@ -325,7 +325,8 @@ func runChild(work string, args []string, st *cliState, sig syscall.Signal, open
 	}
 	var reached <-chan struct{}
 	stopPoll := make(chan struct{})
-	defer close(stopPoll)
+	stopAll := sync.OnceFunc(func() { close(stopPoll) })
+	defer stopAll()
 	if openPath != "" {
 		ch := make(chan struct{})
 		reached = ch
@@ -343,6 +344,13 @@ func runChild(work string, args []string, st *cliState, sig syscall.Signal, open
 				time.Sleep(100 * time.Microsecond)
 			}
 		}()
+	} else if ff != nil {
+		ch := make(chan struct{})
+		reached = ch
+		ff.cont = make(chan struct{})
+		ff.fin = make(chan struct{})
+		go ff.run(stopPoll, ch)
+		defer func() { stopAll(); <-ff.fin }() // the feeder never outlives the case
 	} else if st != nil && st.holdAt > 0 {
 		reached = st.reached
 	}
@@ -373,6 +381,9 @@ func runChild(work string, args []string, st *cliState, sig syscall.Signal, open
 		if st != nil {
 			st.doRelease()
 		}
+		if ff != nil {
+			close(ff.cont)
+		}
 		select {
 		case werr = <-done:
 		case <-timeout.C:
@@ -401,4 +412,81 @@ func cliTail(s string, n int) string {
 		return "…" + s[len(s)-n:]
 	}
 	return s
+}
+
+// ---------------------------------------------------------------- input fed through a FIFO
+
+// fifoFeed feeds the child's input through a FIFO in two parts: the first part is written and the
+// feeder waits until the child has read all of it (the FIFO is empty), then the trigger fires (the
+// signal is sent by runChild); the rest is written and the FIFO closed when cont is closed.
+type fifoFeed struct {
+	path         string
+	part1, part2 []byte
+	cont         chan struct{}
+	fin          chan struct{}
+	Drained      bool // the child had read the whole first part when the trigger fired
+}
+
+func fifoUnread(f *os.File) int {
+	n := -1
+	if rc, err := f.SyscallConn(); err == nil {
+		rc.Control(func(fd uintptr) {
+			if v, err := unix.IoctlGetInt(int(fd), unix.TIOCINQ); err == nil { // TIOCINQ == FIONREAD
+				n = v
+			}
+		})
+	}
+	return n
+}
+
+func (ff *fifoFeed) run(stop <-chan struct{}, reached chan<- struct{}) {
+	defer close(ff.fin)
+	stopped := func() bool {
+		select {
+		case <-stop:
+			return true
+		default:
+			return false
+		}
+	}
+	// a non-blocking open for writing succeeds as soon as the child has the FIFO open for reading
+	var f *os.File
+	for {
+		var err error
+		if f, err = os.OpenFile(ff.path, os.O_WRONLY|syscall.O_NONBLOCK, 0); err == nil {
+			break
+		}
+		if stopped() {
+			return
+		}
+		time.Sleep(200 * time.Microsecond)
+	}
+	defer f.Close()
+	closer := make(chan struct{})
+	defer close(closer)
+	go func() { // a write that is blocked because the child stopped reading ends when the case ends
+		select {
+		case <-stop:
+			f.Close()
+		case <-closer:
+		}
+	}()
+	if _, err := f.Write(ff.part1); err != nil {
+		return
+	}
+	for i := 0; i < 50000 && !stopped(); i++ {
+		if fifoUnread(f) == 0 {
+			ff.Drained = true
+			break
+		}
+		time.Sleep(100 * time.Microsecond)
+	}
+	time.Sleep(3 * time.Millisecond) // steering: let the child digest what it has read and block on the next read
+	close(reached)
+	select {
+	case <-ff.cont:
+	case <-stop:
+		return
+	}
+	f.Write(ff.part2)
 }
